@@ -57,10 +57,10 @@ void h_fn_slice(void){ LOCALS; u64 nd = 2;
   int r = k_fn_slice(shape, data, p, OUTS, same); agree(r, 4, ex, nd, rc, dims, shapes, vals);
   ASSERT(vals[0] == data[((u64)b0 + idx[0]*(u64)s0)*n1 + (u64)b1 + idx[1]], "Python slice element");
   ASSERT(same[0] == 1, "extracted operand is the address of the leaf array"); REACHED(); }
-void h_fn_square(void){ LOCALS; u64 nd = 2;
+void h_fn_invert(void){ LOCALS; u64 nd = 2;
   ex[0] = n0; ex[1] = n1; in_index(idx, ex, nd, MAXE - 1);
-  int r = k_fn_square(shape, data, p, OUTS, same); agree(r, 4, ex, nd, rc, dims, shapes, vals);
-  u32 e = data[idx[0]*n1 + idx[1]]; ASSERT(vals[0] == e * e, "square element");
+  int r = k_fn_invert(shape, data, p, OUTS, same); agree(r, 4, ex, nd, rc, dims, shapes, vals);
+  ASSERT(vals[0] == ~data[idx[0]*n1 + idx[1]], "invert element");
   ASSERT(same[0] == 1, "extracted operand is the address of the leaf array"); REACHED(); }
 void h_fn_sum(void){ LOCALS; u64 nd = 1; i32 ax = in_i32(-2, 1); p[0] = (u32)ax; u64 an = norm(ax, 2);
   ex[0] = an == 0 ? n1 : n0; in_index(idx, ex, nd, MAXE - 1);
@@ -68,9 +68,15 @@ void h_fn_sum(void){ LOCALS; u64 nd = 1; i32 ax = in_i32(-2, 1); p[0] = (u32)ax;
   u32 acc = 0; for (u64 k = 0; k < MAXE; k++) if (k < shape[an]) acc += an == 0 ? data[k*n1 + idx[0]] : data[idx[0]*n1 + k];
   ASSERT(vals[0] == acc, "NumPy sum over axis");
   ASSERT(same[0] == 1, "extracted operand is the address of the leaf array"); REACHED(); }
+#ifndef VAR
+#define VAR 1
+#endif
+#define CAT3_(a,b,c) a##b##_##c
+#define CAT3(a,b,c) CAT3_(a,b,c)
+/* VAR (per-query constant) selects the variant compared with the direct view: 1 fn(a,b), 2 fn(a)(b), 3 extracted f(a,b), 4 extracted f(a)(b), 5 fn::apply(f, extracted operands) */
 #define BIN(NAME, OP) void h_fn_##NAME(void){ LOCALS; u32 db[CELLS]; in_data(db, MAXE*MAXE); u64 nd = 2; \
   ex[0] = n0; ex[1] = n1; in_index(idx, ex, nd, MAXE - 1); \
-  int r = k_fn_##NAME(shape, data, db, OUTS, same); agree(r, 6, ex, nd, rc, dims, shapes, vals); \
+  int r = CAT3(k_fn_, NAME, VAR)(shape, data, db, OUTS, same); agree(r, 2, ex, nd, rc, dims, shapes, vals); \
   u64 g = idx[0]*n1 + idx[1]; ASSERT(vals[0] == (u32)(data[g] OP db[g]), "element == a " #OP " b (operand order)"); \
   ASSERT(same[0] == 1 && same[1] == 1, "extracted operands are the addresses of the leaves, in order"); REACHED(); }
 BIN(add, +)
